@@ -2,6 +2,7 @@ package main
 
 import (
 	"bytes"
+	"errors"
 	"math/rand"
 	"os"
 	"os/exec"
@@ -53,6 +54,7 @@ func init() {
 	}, run: runRunnerCase})
 	cmdCfg := flowCfg
 	cmdCfg.wCmd, cmdCfg.wStop, cmdCfg.waitCmd, cmdCfg.maxNodes = 9, 1, true, 2
+	cmdCfg.loopPct = 50 // the same command statements run several times in one runner
 	register("cmds", family{gen: func(r *rand.Rand, tier string) *sx.Node {
 		return genRunnerCase(r, cmdCfg, opsCfg{steps: 40, extraAfterEnd: 1})
 	}, run: runRunnerCase})
@@ -91,6 +93,10 @@ func init() {
 	rndCfg.domainFaults = true
 	rndCfg.randomPct = 25
 	register("random", family{gen: func(r *rand.Rand, tier string) *sx.Node {
+		if r.Intn(2) == 0 {
+			// snapshots taken (and restored) along the way: neither draws from the generator nor rewinds it
+			return genRunnerCase(r, rndCfg, opsCfg{steps: 30, extraAfterEnd: 1, snapshots: true, runners: 1, snapFreq: 3})
+		}
 		return genRunnerCase(r, rndCfg, opsCfg{steps: 30, extraAfterEnd: 1})
 	}, run: runRepeated})
 	endCfg := flowCfg
@@ -773,12 +779,68 @@ func runConcurrent(c *sx.Node) *sx.Node {
 		<-noiseDone
 		<-hammerDone
 	}
+	if st := starvationProbe(6); st != nil {
+		results = append(results, st)
+	}
 	for n := range hammerRef {
 		if hammerGot[n] != hammerRef[n] || strings.Contains(hammerRef[n], "err:") || strings.Contains(hammerRef[n], "load:") || !strings.HasSuffix(hammerRef[n], "end\n") {
 			results = append(results, sx.Tag("hammer-differs", sx.Int(int64(n)), sx.Str(firstDiffLine(hammerRef[n], hammerGot[n]))))
 		}
 	}
 	return sx.Tag("all", results...)
+}
+
+// starvationProbe: k runners each start a converted command (func(float64) error, func(float64)) whose
+// handler stays busy until the probe releases it; one more runner then executes a command that returns at
+// once and must get past it - independent runners do not wait for one another's handlers.
+func starvationProbe(k int) *sx.Node {
+	script := "title: S\n---\nBefore\n<<busy 1>>\nAfter\n===\n"
+	gate := make(chan struct{})
+	started := make(chan struct{}, k)
+	defer close(gate)
+	for i := 0; i < k; i++ {
+		dr, err := ysgo.NewDialogueRunner(nil, "s"+strconv.Itoa(i), strings.NewReader(script))
+		if err != nil {
+			return sx.Tag("starved", sx.Int(int64(k)), sx.Str("load: "+err.Error()))
+		}
+		if i%2 == 0 {
+			err = dr.ConvertAndAddCommand("busy", func(float64) error { started <- struct{}{}; <-gate; return nil })
+		} else {
+			err = dr.ConvertAndAddCommand("busy", func(float64) { started <- struct{}{}; <-gate })
+		}
+		if err != nil {
+			return sx.Tag("starved", sx.Int(int64(k)), sx.Str("register: "+err.Error()))
+		}
+		dr.Next(0) // Before
+		dr.Next(0) // starts the command
+		select {
+		case <-started:
+		case <-time.After(2 * time.Second):
+			return sx.Tag("starved", sx.Int(int64(i)), sx.Str("the handler of runner "+strconv.Itoa(i)+" never started"))
+		}
+	}
+	dr, err := ysgo.NewDialogueRunner(nil, "last", strings.NewReader(script))
+	if err != nil {
+		return sx.Tag("starved", sx.Int(int64(k)), sx.Str("load: "+err.Error()))
+	}
+	if err := dr.ConvertAndAddCommand("busy", func(float64) error { return nil }); err != nil {
+		return sx.Tag("starved", sx.Int(int64(k)), sx.Str("register: "+err.Error()))
+	}
+	dr.Next(0)
+	deadline := time.Now().Add(2 * time.Second)
+	for {
+		el, err := dr.Next(0)
+		if err == nil && el != nil && el.Line != nil {
+			return nil // "After"
+		}
+		if err != nil && !errors.Is(err, ysgo.ErrWaitingForCommandCompletion) {
+			return sx.Tag("starved", sx.Int(int64(k)), sx.Str("error: "+err.Error()))
+		}
+		if time.Now().After(deadline) {
+			return sx.Tag("starved", sx.Int(int64(k)), sx.Str("still waiting for a command that returned at once"))
+		}
+		time.Sleep(200 * time.Microsecond)
+	}
 }
 
 // brokenScripts are refused by NewDialogueRunner, each at a different point of the load.
